@@ -164,6 +164,9 @@ impl<T: CoordsFloat> CMap2<T> {
         t: &mut Transaction,
         dart_id: DartIdType,
     ) -> StmClosureResult<bool> {
+        // a removed dart keeps no data: its slot may be handed out again by `insert_free_dart`
+        self.vertices.clear_slot(t, dart_id)?;
+        self.attributes.clear_slot(t, dart_id)?;
         self.unused_darts[dart_id].replace(t, true)
     }
 }
